@@ -210,7 +210,7 @@ impl<S: Read> Master<S> {
     }
 
 //@@ fn loop.read_input = src/lib.rs :: impl<S: Read> Master<S> :: fn read_input
-//@@ safety C01 C05 C06 C14 C16 C17 C11 C03
+//@@ safety C01 C05 C06 C14 C16 C17 C11 C03 C20
 //@@ ret r
 //@@ rewrite break_value writeln_error
 //@@ header
@@ -220,7 +220,7 @@ impl<S: Read> Master<S> {
         ensures
             final(process).inv(), // @obl LOOP.inv : C03
             // whatever happens, nothing already written is lost (C16.prefix)
-            is_prefix(old(process).log(), final(process).log()), // @obl LOOP.prefix : C16
+            is_prefix(old(process).log(), final(process).log()), // @obl LOOP.prefix : C16 C20
             // every value is handed to the pipeline exactly once, in order, as a fresh context carrying its position and the
             // two counters; nothing else reaches the pipeline (C01.stream, C11.fresh, C17.idx)
             r is Ok ==> exists|fed: Seq<Context>| #[trigger] fed_ok(fed, *old(index)) && fed_post(old(process), final(process), fed)
